@@ -672,6 +672,8 @@ func (fx *Fx) frameObligations(fs, entry *State, spec *FuncSpec, pkg *Pkg) {
 			fx.pkg = pkg
 			fx.inSpec++
 			ent := entry.clone()
+			ent.old = entry
+			ent.trN, ent.trCols = fs.trN, fs.trCols // the trace is append-only: locations named through it use the final trace
 			p := fx.evalPlace(ent, m, true)
 			fx.pkg = saved
 			fx.inSpec--
